@@ -12,6 +12,7 @@ import (
 	"bufio"
 	"encoding/json"
 	"fmt"
+	"github.com/gookit/rux"
 	"math/rand"
 	"os"
 	"strconv"
@@ -108,6 +109,8 @@ func fatal(f string, a ...any) {
 }
 
 func main() {
+	// a global path variable of the application's own (patterns.py GLOBALS): "{uid}" means `\d+` wherever no regex is given
+	rux.SetGlobalVar("uid", `\d+`)
 	if len(os.Args) < 4 {
 		fatal("usage: ruxh <family> replay|record <file> [n]")
 	}
